@@ -1448,6 +1448,10 @@ class PredEval:
                     r = chr(av[1]) in av[0][1]
                 elif name.endswith("[T]>::contains") and len(av) == 2 and isinstance(av[0], tuple) and av[0][0] == "arr" and isinstance(av[1], int):
                     r = av[1] in av[0][1]
+                elif name in self.prog.fns and self.prog.fns[name].get("kind") == "Closure" and len(av) == 2 and isinstance(av[0], tuple) and av[0] \
+                        and av[0][0] == "closure" and isinstance(av[1], tuple) and av[1] and av[1][0] == "tuple":
+                    # a call of a local closure (resolved to its body): environment = its captures, parameters = the argument tuple spread out
+                    r = self.call(name, [("tuple", av[0][2])] + list(av[1][1]), depth + 1)
                 elif name in self.prog.fns and all(a is not None for a in av):
                     r = self.call(name, av, depth + 1)
                 elif (name.endswith("::eq") or name.endswith("::ne")) and len(av) == 2 and all(isinstance(a, (int, bool)) for a in av):
@@ -1488,6 +1492,10 @@ class PredEval:
             return self.call(c[1], [("tuple", c[2])] + list(args), depth + 1)
         if not av or any(a is None for a in av):
             return None
+        # a local closure called directly: `let has = |mask| (m & mask) == mask; has(SHIFT)` is Fn::call(&has, (SHIFT,))
+        if name.rsplit("::", 1)[-1] in ("call", "call_mut", "call_once") and "Fn" in name and len(av) == 2 \
+                and isinstance(av[0], tuple) and av[0] and av[0][0] == "closure" and isinstance(av[1], tuple) and av[1] and av[1][0] == "tuple":
+            return call_clo(av[0], list(av[1][1]))
 
         def is_seq(v):
             return isinstance(v, tuple) and v and v[0] in ("arr", "iter")
